@@ -61,7 +61,7 @@ def dumpCallE (g : Graph) (b : BuildOut) (ctxAware : Bool) (n : Nat) : String :=
   let argS := (b.nodeArgs.getD n []).map (fun a =>
     let p := b.params.getD a.param default
     let waited := a.isWait && p.withChan && spec.kind != 2
-    s!"{valueIdE g b a.param}{if waited then (if ctxAware then "W" else "w") else ""}")
+    s!"{valueIdE g b a.param}{if waited then (if ctxAware then "^W" else "^w") else ""}")
   let retS := (b.nodeRets.getD n []).map (fun r =>
     let p := b.params.getD r default
     s!"{if p.refs == 0 then "_" else "r"}{if p.withChan then "c" else ""}")
